@@ -337,7 +337,12 @@ func (pc *parentController) processNextWorkItem() bool {
 func (pc *parentController) enqueueParentObject(obj interface{}) {
 	// If the parent doesn't match our selector, and it doesn't have our
 	// finalizer, we don't care about it.
-	if parent, ok := obj.(*unstructured.Unstructured); ok {
+	// A deleted parent can arrive wrapped in a tombstone: filter what it carries.
+	candidate := obj
+	if tombstone, ok := obj.(cache.DeletedFinalStateUnknown); ok {
+		candidate = tombstone.Obj
+	}
+	if parent, ok := candidate.(*unstructured.Unstructured); ok {
 		if !controllerutil.ContainsFinalizer(parent, pc.finalizer.Name) && pc.doNotMatchLabels(parent.GetLabels()) {
 			return
 		}
